@@ -174,6 +174,9 @@ fn rip_line(rng: &mut Rng) -> Piece {
 fn igs_num(rng: &mut Rng) -> String {
     if rng.chance(1, 3) {
         rng.range(0, 700).to_string()
+    } else if rng.chance(1, 3) {
+        // selectors (line type, marker type, pattern number, mode) are small enumerations: every value counts
+        rng.range(0, 17).to_string()
     } else {
         rng.pick(&IGS_VALUES).to_string()
     }
@@ -190,12 +193,18 @@ fn igs_command(rng: &mut Rng, c: u8) -> Vec<u8> {
         v.push(if rng.chance(7, 8) { b'@' } else { b'\n' });
         return v;
     }
-    let n = rng.usize(13);
+    // most commands take one to six numbers
+    let n = if rng.chance(2, 3) { 1 + rng.usize(6) } else { rng.usize(13) };
     for i in 0..n {
         if i > 0 {
             v.push(b',');
         }
-        v.extend(igs_num(rng).into_bytes());
+        if i < 2 && rng.chance(1, 3) {
+            // the leading numbers are often selectors
+            v.extend(rng.range(0, 13).to_string().into_bytes());
+        } else {
+            v.extend(igs_num(rng).into_bytes());
+        }
         if rng.chance(1, 24) {
             v.extend(b"_\r\n");
         }
@@ -265,8 +274,45 @@ fn igs_line(rng: &mut Rng) -> (Piece, usize) {
     (piece(v, true), calls)
 }
 
+/// IGS commands that set drawing state (attributes, line and marker types, hollow, mode, effects, colours,
+/// resolution, scaling, cursor) and the drawing commands that read it.
+const IGS_STATE_CMDS: &[u8] = b"ATHMECSRPgk";
+const IGS_PROBE: &[u8] = b"L>0,0,50,50:D>80,20:B>10,10,60,40,0:U>20,20,70,50,1:O>100,100,30:Q>100,100,40,20:J>100,100,30,20,0,90:K>100,100,30,0,90:V>100,100,30,0,90:Y>100,100,30,20,0,90:z>3,10,10,50,20,90,30:f>3,10,10,50,20,90,30:P>50,50:Z>5,5,30,30:F>60,60:f>0:z>0:f>1,5,5:W>10,10,Hi@";
+/// per state command: arity 1 with 9 first values, arities 2..=6 with 9 x 13 (first, second) values
+const SELECTOR_PER_CMD: u64 = 9 + 5 * 9 * 13;
+
+pub fn selector_total() -> u64 {
+    IGS_STATE_CMDS.len() as u64 * SELECTOR_PER_CMD
+}
+
+/// RIP commands that set drawing state, with the width of their parameter block (two base-36 digits per field).
+const RIP_STATE_CMDS: [(u8, usize); 9] = [(b'=', 8), (b'S', 4), (b'W', 2), (b'Y', 8), (b'c', 2), (b'v', 8), (b'w', 10), (b'a', 4), (b's', 18)];
+/// one of each drawing command (level 0), read under the state set before
+const RIP_PROBE: &[&str] = &[
+    "L00001010", "R05051E14", "B05051E14", "C1E1E0A", "O1E1E005A140A", "o1E1E140A", "A1E1E005A0A", "V1E1E005A140A", "I1E1E005A0A", "i1E1E005A140A",
+    "Z00001010202030300A", "P03000010101E05", "p03000010101E05", "l03000010101E05", "F0A0A0F", "X0A0A", "m0505", "THello", "@0A0AHi", "P00", "p00", "l00", "p010505",
+];
+const RIP_SELECT_VALUES: u64 = 17;
+
+fn rip_selector_runs(width: usize) -> u64 {
+    if width <= 2 {
+        RIP_SELECT_VALUES
+    } else {
+        RIP_SELECT_VALUES * RIP_SELECT_VALUES
+    }
+}
+
+pub fn rip_selector_total() -> u64 {
+    RIP_STATE_CMDS.iter().map(|c| rip_selector_runs(c.1)).sum()
+}
+
+fn b36_2(v: u64) -> [u8; 2] {
+    const D: &[u8; 36] = b"0123456789ABCDEFGHIJKLMNOPQRSTUVWXYZ";
+    [D[(v / 36 % 36) as usize], D[(v % 36) as usize]]
+}
+
 pub fn exhaustive_total() -> u64 {
-    ((RIP_L0.len() + RIP_L1.len() + 1) * 25 * 4) as u64 + (IGS_CMDS.len() * 13 * 3) as u64
+    ((RIP_L0.len() + RIP_L1.len() + 1) * 25 * 4) as u64 + (IGS_CMDS.len() * 13 * 3) as u64 + selector_total() + rip_selector_total()
 }
 
 /// Systematic part: every command with every parameter-list length over the digits {0, 1, Z}.
@@ -292,6 +338,66 @@ fn systematic(rng: &mut Rng, idx: u64, t: &mut Trace) {
         v.extend(b"|\n");
         t.labels.push(format!("cmd=rip:{}:{len}", String::from_utf8_lossy(&v[2..4.min(v.len())]).replace('\x1b', "ESC")));
         t.rx(&v);
+        t.events.push(Ev::Picture);
+    } else if idx - rip_n >= (IGS_CMDS.len() * 13 * 3) as u64 + selector_total() {
+        // RIP selector sweep: one state-setting command with every small value in its first two fields, then
+        // one of each drawing command under that state
+        let mut r = idx - rip_n - (IGS_CMDS.len() * 13 * 3) as u64 - selector_total();
+        t.cfg.emu = "rip".into();
+        let mut which = RIP_STATE_CMDS[0];
+        for c in RIP_STATE_CMDS {
+            if r < rip_selector_runs(c.1) {
+                which = c;
+                break;
+            }
+            r -= rip_selector_runs(c.1);
+        }
+        let (p1, p2) = (r % RIP_SELECT_VALUES, r / RIP_SELECT_VALUES);
+        let mut v = b"!|".to_vec();
+        v.push(which.0);
+        for f in 0..which.1 / 2 {
+            v.extend(b36_2(match f {
+                0 => p1,
+                1 => p2,
+                _ => 1,
+            }));
+        }
+        for p in RIP_PROBE {
+            v.push(b'|');
+            v.extend(p.bytes());
+        }
+        v.extend(b"|\n");
+        t.labels.push(format!("cmd=rip:select:{}", which.0 as char));
+        t.rx(&v);
+        t.events.push(Ev::Picture);
+    } else if idx - rip_n >= (IGS_CMDS.len() * 13 * 3) as u64 {
+        // selector sweep: one state-setting command with every small (first, second) selector pair and
+        // every plausible arity, then one of each drawing command under that state
+        let idx = idx - rip_n - (IGS_CMDS.len() * 13 * 3) as u64;
+        t.cfg.emu = "igs".into();
+        let c = IGS_STATE_CMDS[(idx / SELECTOR_PER_CMD) as usize % IGS_STATE_CMDS.len()];
+        let r = idx % SELECTOR_PER_CMD;
+        let (arity, p1, p2) = if r < 9 { (1, r, 0) } else { (2 + (r - 9) / 117, (r - 9) % 117 / 13, (r - 9) % 13) };
+        let mut v = b"G#".to_vec();
+        v.push(c);
+        v.push(b'>');
+        for i in 0..arity {
+            if i > 0 {
+                v.push(b',');
+            }
+            let val = match i {
+                0 => p1,
+                1 => p2,
+                _ => 1,
+            };
+            v.extend(val.to_string().into_bytes());
+        }
+        v.push(b':');
+        v.extend(IGS_PROBE);
+        v.extend(b"\r\n");
+        t.labels.push(format!("cmd=igs:select:{}:{arity}", c as char));
+        t.rx(&v);
+        t.events.push(Ev::NextAction);
         t.events.push(Ev::Picture);
     } else {
         let idx = idx - rip_n;
